@@ -60,6 +60,18 @@ class Crate {
     public P cargo;
     public constructor(P l, P c) -> Crate { this.label = l; this.cargo = c; }
 }
+class PX extends P {
+    public int extra;
+    public constructor(int v) -> PX { super(v); this.extra = v + 1; }
+}
+class TCrate extends Crate {
+    public int tag;
+    public constructor(P l, P c) -> TCrate { super(l, c); this.tag = 5; }
+}
+class QX extends Q {
+    public boolean flag;
+    public constructor(P p, int extra) -> QX { super(p, extra); this.flag = true; }
+}
 function chain(int n) -> DNode {
     DNode root = new DNode(0);
     DNode cur = root;
@@ -124,6 +136,12 @@ STMTS = [
     "DNode c{u} = chain({k}); echo(churn({n})); echo(walk(c{u}.down)); destroy c{u}; echo(churn({n}));",
     "P lab{u} = new P({a}); Crate cr{u} = new Crate(lab{u}, new P({b})); echo(churn({n})); echo(cr{u}.cargo.v + cr{u}.label.v);",
     "P lab{u} = new P({a}); echo(use(new Crate(lab{u}, new P({b})).cargo, churn({n})));",
+    # subclasses that add only primitive fields to a base holding references
+    "PX h{u} = new PX({a}); h{u}.buddy = new P({b}); echo(churn({n})); echo(h{u}.buddy.v + h{u}.extra); destroy h{u};",
+    "P h{u} = new PX({a}); h{u}.buddy = new PX({b}); echo(churn({n})); echo(h{u}.buddy.v);",
+    "TCrate cr{u} = new TCrate(new P({a}), new P({b})); echo(churn({n})); echo(cr{u}.cargo.v + cr{u}.label.v + cr{u}.tag);",
+    "Q q{u} = new QX(new P({a}), churn({n})); echo(churn({n})); echo(q{u}.sum());",
+    "echo(new QX(new P({a}), churn({n})).sum() + churn({n}));",
 ]
 ERR_STMT = "P e{u} = new P({a}); P nul{u} = null; echo(churn({n})); echo(nul{u}.v);"
 
